@@ -31,6 +31,14 @@ def holeVal (ρ : Text → Option P) : List Tok → Option P
       else if t = "-0.5 * ".toList then some (Amp.pneg α (Amp.phalf α x))
       else if t = "0.5 * ".toList then some (Amp.phalf α x)
       else none
+  | [.lit t, .var a, .lit m, .var b, .lit e] =>
+    match ρ a, ρ b with
+    | some x, some y =>
+      if t = "0.5 * (".toList && m = ['-'] && e = [')'] then some (Amp.phalf α (Amp.padd α x (Amp.pneg α y)))
+      else if t = "-0.5 * (".toList && m = ['+'] && e = [')'] then some (Amp.pneg α (Amp.phalf α (Amp.padd α x y)))
+      else if t = "0.5 * (".toList && m = " + ".toList && e = [')'] then some (Amp.phalf α (Amp.padd α x y))
+      else none
+    | _, _ => none
   | _ => none
 
 /-- numeric value of an operand (`none`: a qubit or an operand outside the exact class) -/
@@ -49,6 +57,7 @@ def gateMatrixV (name : Text) (vals : List (NVal P)) : Option (LMat α) :=
   match String.ofList name, vals with
   | "i", [] => some CQ1.mI | "h", [] => some (CQ1.mH (P := P)) | "x", [] => some CQ1.mX
   | "y", [] => some (CQ1.mY (P := P)) | "z", [] => some CQ1.mZ | "s", [] => some (CQ1.mS (P := P))
+  | "x90", [] => some (CQ1.mX90 (P := P)) | "mx90", [] => some (CQ1.mMX90 (P := P))
   | "sdag", [] => some (CQ1.mSdag (P := P)) | "t", [] => some (CQ1.mT (P := P)) | "tdag", [] => some (CQ1.mTdag (P := P))
   | "rx", [.angle a] => some (CQ1.mRx a) | "ry", [.angle a] => some (CQ1.mRy a) | "rz", [.angle a] => some (CQ1.mRz a)
   | "cnot", [] => some CQ1.mCnot | "cz", [] => some CQ1.mCz | "swap", [] => some CQ1.mSwap
